@@ -58,6 +58,9 @@ def chunks(tier, seed):
     nch = 16 if tier == "quick" else 48
     for k in range(nch):
         out.append({"kind": "rand", "n": nr // nch, "maxdepth": 5 if tier == "quick" else 6, "key": "rand%d" % k})
+    nq = 8000 if tier == "quick" else 200000
+    for k in range(8 if tier == "quick" else 32):
+        out.append({"kind": "seq", "n": nq // (8 if tier == "quick" else 32), "key": "seq%d" % k})
     out.append({"kind": "opobj", "key": "opobj", "reps": 3 if tier == "quick" else 20})
     return out
 
@@ -68,7 +71,7 @@ def floors(tier):
          "classes": {"form:expr": 5000, "form:assign_new": 500, "form:assign_existing": 500, "form:coord": 500,
                      "form:reflex": 200, "needs_parentheses": 2000, "left_assoc_same_prec": 1000, "neg": 1000,
                      "neg_bare_after_additive": 100, "scalar_left": 1000, "scalar_right": 1000, "scalar_scalar": 300,
-                     "nan_input": 300, "via:getitem": 500, "opobj": 50},
+                     "nan_input": 300, "via:getitem": 500, "opobj": 50, "sequence_of_statements": 2000},
          "distinct_nontrivial": 10000}
     for o in BINOPS:
         f["classes"]["op:" + o] = 1000
@@ -217,6 +220,25 @@ def random_tree(rng, d, want_vector=False):
     return ["fn", fn, random_tree(rng, d - 1, True)]
 
 
+def random_tree_over(rng, d, names):
+    """random_tree restricted to the names that exist at this point of a program"""
+    t = random_tree(rng, d)
+
+    def fix(node):
+        if node[0] == "var" and node[1] in ("a", "b", "s") and rng.random() < 0.5:
+            return ["var", rng.choice(names)]
+        if node[0] in ("num", "var"):
+            return node
+        if node[0] == "par":
+            return ["par", fix(node[1])]
+        if node[0] == "neg":
+            return ["neg", fix(node[1]), node[2]]
+        if node[0] == "fn":
+            return ["fn", node[1], fix(node[2])]
+        return ["bin", node[1], fix(node[2]), fix(node[3])]
+    return fix(t)
+
+
 def cases(chunk):
     rng = gen.rng_for(PROP, chunk)
     kind = chunk["kind"]
@@ -243,6 +265,51 @@ def cases(chunk):
             c["ast"] = ast
             c["via"] = "getitem" if rng.random() < 0.2 else "operate"
             c["kind"] = "tree"
+            yield c
+    elif kind == "seq":
+        # programs: 2..5 statements on the same track; later statements may use names assigned earlier
+        for i in range(chunk["n"]):
+            n = rng.choice([1, 2, 3, 3, 4, 5])
+            feat = {k: [rng.choice(VALS) for _ in range(n)] for k in NAMES}
+            if rng.random() < 0.08:
+                feat[rng.choice(NAMES)][rng.randrange(n)] = float("nan")
+            c = env_case(feat, rng)
+            names = list(NAMES)
+            stmts = []
+            if rng.random() < 0.35:
+                # read - overwrite - read again: the same function of the same name before and after the name is
+                # re-assigned (a value remembered from the first evaluation must not be served again)
+                v = rng.choice(NAMES + ["x", "y", "z"])
+                fn = rng.choice(E.POINTWISE + E.SHORTHAND + E.AGGREGATES + E.AGGREGATES)
+                use = ["fn", fn, ["var", v]]
+                if rng.random() < 0.5:
+                    use = ["bin", rng.choice(["+", "-", "*"]), use, random_tree_over(rng, 1, names)]
+                upd = random_tree_over(rng, rng.randrange(1, 3), names)
+                if not E.is_vector(upd):
+                    upd = ["bin", "+", ["var", v], upd]
+                form = {"form": "coord", "target": v} if v in ("x", "y", "z") else {"form": "assign_existing", "target": v}
+                if rng.random() < 0.3:
+                    form = {"form": "reflex", "target": v, "rop": rng.choice(["+", "-", "*"])}
+                c["stmts"] = [dict(form="expr", ast=use, via="operate"), dict(form, ast=upd, via="operate"),
+                              dict(form="expr", ast=use, via=rng.choice(["operate", "getitem"]))]
+                c["kind"] = "seq"
+                yield c
+                continue
+            for k in range(rng.randrange(2, 6)):
+                ast = random_tree_over(rng, rng.randrange(1, 4), names)
+                f = form_for(k, ast, rng)
+                if f["form"] == "reflex" and f["target"] not in names + ["x"]:
+                    f["target"] = rng.choice(names)
+                if f["form"] == "assign_existing":
+                    f["target"] = rng.choice(names)
+                if f["form"] == "assign_new":
+                    f["target"] = rng.choice(["c", "d", "c"])
+                    if f["target"] not in names:
+                        names.append(f["target"])
+                st = dict(f, ast=ast, via="getitem" if rng.random() < 0.2 else "operate")
+                stmts.append(st)
+            c["stmts"] = stmts
+            c["kind"] = "seq"
             yield c
     elif kind == "opobj":
         for rep in range(chunk["reps"]):
@@ -371,49 +438,46 @@ def n_operator_nodes(ast):
     return 1 + n_operator_nodes(ast[2]) + n_operator_nodes(ast[3])
 
 
-def run_tree(case, ctx):
-    ast = case["ast"]
-    form = case["form"]
-    cls = {"form:" + form, "via:" + case["via"]}
+def judge_stmt(tr, env, n, stmt, ctx, cls):
+    """One statement on an existing track.  Returns ("ood", why) | ("violated", witness) | ("held", None);
+    on a held assignment env is updated with the values read back from the track."""
+    ast = stmt["ast"]
+    form = stmt["form"]
+    cls.add("form:" + form)
     tree_classes(ast, cls)
     if not E.well_typed(ast):
-        return ood("function applied to a literal", ["ood:fn_of_literal"])
-    tr, env, n = build(case)
-    if any(v != v for k in NAMES for v in env[k]):
-        cls.add("nan_input")
-    if any(v == 0 for k in NAMES for v in env[k]):
-        cls.add("zero_input")
-    cls.add("size:%d" % n)
+        return "ood", "function applied to a literal"
     body = E.to_str(ast)
-    target = case.get("target")
+    target = stmt.get("target")
     if form == "expr":
         text = body
         eff = ast
     elif form == "reflex":
-        text = "%s%s=%s" % (target, case["rop"], body)
-        eff = ["bin", case["rop"], ["var", target], ast]
-        cls.add("op:" + case["rop"])
+        text = "%s%s=%s" % (target, stmt["rop"], body)
+        eff = ["bin", stmt["rop"], ["var", target], ast]
+        cls.add("op:" + stmt["rop"])
     else:
         text = "%s=%s" % (target, body)
         eff = ast
+    stmt["_text"] = text
     try:
         val = E.evaluate(eff, env, n)
     except E.Undefined as e:
-        return ood("undefined: " + str(e).split("(")[0].strip(), ["ood"])
+        return "ood", "undefined: " + str(e).split("(")[0].strip()
     except E.KnifeEdge as e:
-        return ood("knife-edge: " + str(e), ["knife_edge"])
+        cls.add("knife_edge")
+        return "ood", "knife-edge: " + str(e)
     except (OverflowError, ZeroDivisionError) as e:
-        return ood("undefined: " + type(e).__name__, ["ood"])
+        return "ood", "undefined: " + type(e).__name__
     if E.ill_conditioned(val):
-        return ood("ill-conditioned (rounding bound too wide to judge)", ["ill_conditioned"])
-    sig = (form, target, case.get("rop"), text, tuple(map(repr, (env["a"], env["b"], env["s"]))), n)
-    nt = n_operator_nodes(eff) >= 2
+        return "ood", "ill-conditioned (rounding bound too wide to judge)"
+    stmt["_nops"] = n_operator_nodes(eff)
     before = state(tr)
     del RPN_LOG[:]
-    if case["via"] == "getitem" and any(c in text for c in "+-*/^<>()='"):
+    if stmt.get("via") == "getitem" and any(c in text for c in "+-*/^<>()='"):
+        cls.add("via:getitem")
         got = M.call(lambda: tr[text])
     else:
-        cls.discard("via:getitem")
         cls.add("via:operate")
         got = M.call(tr.operate, text)
     rpn = RPN_LOG[0] if RPN_LOG else None
@@ -421,7 +485,7 @@ def run_tree(case, ctx):
 
     def witness(what, **kw):
         w = {"what": what, "expression": text, "form": form, "n": n,
-             "inputs": {k: env[k] for k in ("a", "b", "s", "x", "y", "z", "t")},
+             "inputs": {k: env[k] for k in sorted(env) if k != "idx"},
              "expected": val.v, "rounding_bound": val.e}
         w.update(kw)
         # localisation: does tracklib's own postfix program, run by an independent stack machine, mean the same?
@@ -436,22 +500,31 @@ def run_tree(case, ctx):
                 w["parser"] = {"rewritten": rpn[0], "rpn": rpn[1], "rpn_machine": repr(ex)[:200]}
         return w
 
+    # diagnostic monitor on the parser (never a verdict on its own; evaluated with the inputs of this statement)
+    if rpn is not None:
+        try:
+            r = E.eval_rpn(rpn[1], env, n)
+            ctx.monitor("rpn.semantic")
+            if not all(E.close(r[-1].v[i], val, i) for i in range(n)):
+                ctx.count("rpn_monitor_disagrees_with_the_tree")
+        except (E.Undefined, E.KnifeEdge, ValueError, IndexError, OverflowError, ZeroDivisionError, TypeError):
+            ctx.count("rpn_monitor_not_evaluable")
     if M.is_raised(got):
-        return violated(witness("evaluation raised", raised=got), sig, nt, sorted(cls))
+        return "violated", witness("evaluation raised", raised=got)
     if M.is_raised(after):
-        return violated(witness("track unreadable after evaluation", raised=after), sig, nt, sorted(cls))
+        return "violated", witness("track unreadable after evaluation", raised=after)
     ctx.monitor("value.vs_oracle")
     if form == "expr":
         try:
             lst = list(got)
         except TypeError:
-            return violated(witness("evaluation did not return a list", got=got), sig, nt, sorted(cls))
+            return "violated", witness("evaluation did not return a list", got=got)
         if len(lst) != n or not all(E.close(lst[i], val, i) for i in range(n)):
-            return violated(witness("returned values differ from ordinary arithmetic", got=lst), sig, nt, sorted(cls))
+            return "violated", witness("returned values differ from ordinary arithmetic", got=lst)
         ctx.monitor("conservation.state")
         p = diff_state(before, after)
         if p:
-            return violated(witness("track modified by an expression without '='", problem=p), sig, nt, sorted(cls))
+            return "violated", witness("track modified by an expression without '='", problem=p)
     else:
         ctx.monitor("conservation.state")
         if form == "coord" or (form == "reflex" and target in ("x", "y", "z")):
@@ -459,24 +532,48 @@ def run_tree(case, ctx):
             p = diff_state(before, after, None, target)
         else:
             if target not in after["names"]:
-                return violated(witness("assigned name is not listed afterwards", listed=after["names"]), sig, nt,
-                                sorted(cls))
+                return "violated", witness("assigned name is not listed afterwards", listed=after["names"])
             stored = after["feat"][target]
             p = diff_state(before, after, target, None)
         if len(stored) != n or not all(E.close(stored[i], val, i) for i in range(n)):
-            return violated(witness("stored values differ from ordinary arithmetic", got=stored, target=target),
-                            sig, nt, sorted(cls))
+            return "violated", witness("stored values differ from ordinary arithmetic", got=stored, target=target)
         if p:
-            return violated(witness("assignment changed something else", problem=p), sig, nt, sorted(cls))
-    # diagnostic monitor on the parser (never a verdict on its own)
-    if rpn is not None:
-        try:
-            r = E.eval_rpn(rpn[1], env, n)
-            ctx.monitor("rpn.semantic")
-            if not all(E.close(r[-1].v[i], val, i) for i in range(n)):
-                ctx.count("rpn_monitor_disagrees_but_result_ok")
-        except (E.Undefined, E.KnifeEdge, ValueError, IndexError, OverflowError, ZeroDivisionError):
-            ctx.count("rpn_monitor_not_evaluable")
+            return "violated", witness("assignment changed something else", problem=p)
+        env[target] = [float(v) for v in stored]
+    return "held", None
+
+
+def run_tree(case, ctx):
+    cls = set()
+    tr, env, n = build(case)
+    if any(v != v for k in NAMES for v in env[k]):
+        cls.add("nan_input")
+    if any(v == 0 for k in NAMES for v in env[k]):
+        cls.add("zero_input")
+    cls.add("size:%d" % n)
+    stmts = case["stmts"] if case["kind"] == "seq" else [case]
+    texts = []
+    nt = False
+    judged = 0
+    for k, st in enumerate(stmts):
+        st = dict(st)
+        verdict, info = judge_stmt(tr, env, n, st, ctx, cls)
+        if verdict == "ood":
+            if judged == 0:
+                return ood(info, ["knife_edge"] if info.startswith("knife") else
+                           ["ill_conditioned"] if info.startswith("ill") else ["ood"])
+            ctx.count("sequence_cut_at_out_of_domain_statement")
+            break
+        texts.append(st["_text"])
+        nt = nt or st.get("_nops", 0) >= 2 or k >= 1
+        judged += 1
+        sig = (tuple(texts), tuple(map(repr, (case["feat"]["a"], case["feat"]["b"], case["feat"]["s"]))), n)
+        if verdict == "violated":
+            if len(stmts) > 1:
+                info["statements_so_far"] = list(texts)
+            return violated(info, sig, nt, sorted(cls))
+    if case["kind"] == "seq" and judged >= 2:
+        cls.add("sequence_of_statements")
     return held(sig, nt, sorted(cls))
 
 
@@ -558,7 +655,7 @@ def run_opobj(case, ctx):
 
 
 def run_case(case, ctx):
-    if case["kind"] == "tree":
+    if case["kind"] in ("tree", "seq"):
         return run_tree(case, ctx)
     return run_opobj(case, ctx)
 
